@@ -377,20 +377,22 @@ void _mzd_compress_l(mzd_t *A, rci_t r1, rci_t n1, rci_t r2) {
 
     if (j < r1 + r2) {
       tmp = mzd_read_bits(A, i, n1 + j - r1, r1 + r2 - j);
-      row[j / m4ri_radix] = tmp;
+      mzd_clear_bits(A, i, j, r1 + r2 - j);
+      mzd_xor_bits(A, i, j, r1 + r2 - j, tmp);
     }
 
-    /* now clear the rest of L2 */
+    /* now clear the rest of L2, i.e. the columns r1 + r2 up to n1 + r2
+       (and nothing past them: the word holding column n1 + r2 - 1 may be
+       the last one, whose excess bits are not ours if A is a window) */
     j = r1 + r2;
-    mzd_clear_bits(A, i, j, m4ri_radix - (j % m4ri_radix));
-
-    j += m4ri_radix - (j % m4ri_radix);
-
-    /* it's okay to write the full word, i.e. past n1+r2, because
-       everything is zero there anyway. Thus, we can omit the code
-       which deals with last few bits. */
-
-    for (; j < n1 + r2; j += m4ri_radix) { row[j / m4ri_radix] = 0; }
+    rci_t const end = n1 + r2;
+    if (j % m4ri_radix) {
+      int const n = MIN(m4ri_radix - (j % m4ri_radix), end - j);
+      mzd_clear_bits(A, i, j, n);
+      j += n;
+    }
+    for (; j + m4ri_radix <= end; j += m4ri_radix) { row[j / m4ri_radix] = 0; }
+    if (j < end) { mzd_clear_bits(A, i, j, end - j); }
   }
 
 #endif
